@@ -17,8 +17,8 @@ func init() {
 
 func genC20(rng *rand.Rand, n int, emit func(Case), dist map[string]int) {
 	pats := []string{"/users/:id", "/users/:id/files/*", "/a/:x/b/:y", `/v1/things\::verb`, `/params\::customVerb`, `/mixed/:id/second\:something`, `/blob\:*`,
-		"/static/*", "/", "/a:x", "/u:n/b", `/only\:literal`, "/:a/:b/:c", "/x/:p.json", `/v1/:kind/:name/actions\:restart`, "/files/*", "/ab/:id/", `/\:`, `/k\:v/:id`}
-	vals := []string{"1", "42", "a.b", "x:y", "50%", "ü", "a b", "report.pdf", "v1", "%2F", "ñandú", "-", "~"}
+		"/static/*", "/", "/a:x", "/u:n/b", `/only\:literal`, "/:a/:b/:c", "/x/:p.json", `/v1/:kind/:name/actions\:restart`, "/files/*", "/ab/:id/", `/\:`, `/k\:v/:id`, "/users/new", "/a/new/b/:y", "/files/new"}
+	vals := []string{"1", "42", "a.b", "x:y", "50%", "ü", "a b", "report.pdf", "v1", "%2F", "ñandú", "-", "~", "new", "new", "a%2Fb", "doc%41"}
 	anyVals := []string{"", "x", "a/b", "a/b/", "/lead", "deep/er/path.txt", "ü/é"}
 	for it := 0; it < n; it++ {
 		var rs []rRoute
@@ -48,6 +48,22 @@ func genC20(rng *rand.Rand, n int, emit func(Case), dist map[string]int) {
 			}
 			seen[rKey(r)] = true
 			rs = append(rs, r)
+		}
+		var forced []string
+		if !structural && rng.Intn(8) == 0 {
+			// a parameter route plus its own instance as a LITERAL route for another method only: the reversed URL spells
+			// that literal, which does not serve the method and therefore does not take priority
+			pp := []string{"/users/:id", "/a/:x/b/:y", "/v1/:kind/:name/actions", "/x/:p.json", "/ab/:id/"}[rng.Intn(5)]
+			for i := strings.Count(pp, ":"); i > 0; i-- {
+				forced = append(forced, []string{"new", "7", "me", "all", "x1"}[rng.Intn(5)])
+			}
+			lit, _, _ := rSubst(pp, forced)
+			ma, mb := "GET", []string{"PUT", "POST", "DELETE"}[rng.Intn(3)]
+			rs = []rRoute{{ma, pp}, {mb, lit}}
+			if rng.Intn(2) == 0 {
+				rs[0], rs[1] = rs[1], rs[0]
+			}
+			dist["literal_instance_for_another_method"]++
 		}
 		// escaped colon colliding with a parameter at the same position is the known finding: keep such tables out
 		collide := false
@@ -81,6 +97,13 @@ func genC20(rng *rand.Rand, n int, emit func(Case), dist map[string]int) {
 			names[i] = rt.Name
 		}
 		ti := rng.Intn(len(rs))
+		if forced != nil {
+			for i, r := range rs {
+				if strings.Contains(r.pattern, ":") {
+					ti = i
+				}
+			}
+		}
 		target := rs[ti]
 		// arity and kinds
 		var kinds []byte
@@ -105,10 +128,13 @@ func genC20(rng *rand.Rand, n int, emit func(Case), dist map[string]int) {
 			v := vals[rng.Intn(len(vals))]
 			if structural && rng.Intn(2) == 0 {
 				// values that spell the literal text of sibling routes: the request walks into their branches first
-				v = []string{"users", "ab", "a", "b", "v1", "us", "abc", "profile", "x"}[rng.Intn(9)]
+				v = []string{"users", "ab", "a", "b", "v1", "us", "abc", "profile", "x", "z", "ploads"}[rng.Intn(11)]
 			}
 			if kd == '*' {
 				v = anyVals[rng.Intn(len(anyVals))]
+			}
+			if forced != nil && len(vs) < len(forced) {
+				v = forced[len(vs)]
 			}
 			vs = append(vs, v)
 			args = append(args, v)
@@ -124,6 +150,15 @@ func genC20(rng *rand.Rand, n int, emit func(Case), dist map[string]int) {
 		}
 		req := httptest.NewRequest(target.method, "/", nil)
 		req.URL = &url.URL{Path: rev}
+		if u, perr := url.ParseRequestURI(rev); perr == nil && !strings.ContainsAny(rev, " ?#") && rng.Intn(2) == 0 {
+			// requested the way a client sends it: as the request target, so that percent-escapes in a value stay escapes
+			// (the router then works on the raw path)
+			req.URL = u
+			dist["requested_as_request_target"]++
+		}
+		if it%3 == 0 {
+			e.Pre(func(next echo.HandlerFunc) echo.HandlerFunc { return func(c echo.Context) error { return next(c) } })
+		}
 		rec := httptest.NewRecorder()
 		*out = rOutcome{}
 		o := rOutcome{}
